@@ -59,6 +59,34 @@ def axref(a):
     return a
 
 
+def narrow(a, vk):
+    """the same numbers carried by a narrower numpy type (`vk`); every value must be exactly representable there"""
+    a = np.asarray(a, dtype=float)
+    b = a.astype(np.dtype(vk))
+    if not np.array_equal(b.astype(float), a):      # a defect of the generator, not a refusal by the library (KeyError passes step)
+        raise KeyError(f"harness: values not representable in {vk}: {a.tolist()}")
+    return b
+
+
+def point(v, op):
+    """the point of a fill / find_bin op: a list of Python floats, or (op["vk"]) an array / a list of scalars of that type"""
+    p = [fl(t) for t in v]
+    if op.get("vk"):
+        p = narrow(p, op["vk"])
+        if op.get("vform") == "scalars":
+            p = list(p)
+    return p
+
+
+def special_class(name):
+    if name in (None, "Histogram2D"):
+        return Histogram2D
+    if name == "HistogramND":
+        return HistogramND
+    from physt import special_histograms
+    return getattr(special_histograms, name)
+
+
 def arr_exact(vals, dt):
     """impl1.arr, except that integer contents which are not doubles (beyond 2**53) go in as exact python integers
     (impl1.arr converts through float64 and refuses them); every list of doubles takes the old route"""
@@ -113,6 +141,8 @@ def step(s: Store, op: dict, log: list):
         if name == "empty":
             axes = [mk_binning(b) for b in op["axes"]]
             klass = Histogram2D if len(axes) == 2 else HistogramND
+            if op.get("klass"):         # HistogramND for two axes / a transformed class (filled with transformed=True)
+                klass = special_class(op["klass"])
             kw = {}
             if op.get("names") is not None:
                 kw["axis_names"] = op["names"]
@@ -136,15 +166,16 @@ def step(s: Store, op: dict, log: list):
             return "ok"
         if name == "fill":
             x = s.get(op["h"])
-            v = [fl(t) for t in op["v"]]
+            v = point(op["v"], op)
             w = num_of(op["w"], op["wk"])
-            ix = x.fill(v) if (op.get("default_w") and op["wk"] == "pyint" and w == 1) else x.fill(v, w)
+            kw = {"transformed": True} if op.get("transformed") else {}
+            ix = x.fill(v, **kw) if (op.get("default_w") and op["wk"] == "pyint" and w == 1) else x.fill(v, w, **kw)
             if any(t is None for t in op["v"]):
                 return "nan" if ix is None else f"unexpected:{ix}"
             return None if ix is None else [int(i) for i in ix]
         if name == "find_bin":
             x = s.get(op["h"])
-            ix = x.find_bin([fl(t) for t in op["v"]])
+            ix = x.find_bin(point(op["v"], op), **({"transformed": True} if op.get("transformed") else {}))
             return None if ix is None else [int(i) for i in ix]
         if name == "fill_n":
             x = s.get(op["h"])
@@ -152,7 +183,22 @@ def step(s: Store, op: dict, log: list):
             ws = op.get("ws")
             if ws is not None:
                 ws = arr(ws, np.dtype(op.get("wkind") or "float64"))
-            if op.get("columns"):
+            if op.get("vk") or op.get("layout") or op.get("transformed"):
+                # the rows carried by a float32 / float16 / narrow integer array (values exactly representable there),
+                # optionally Fortran-ordered / a strided view / read-only
+                if op.get("vk"):
+                    data = narrow(data, op["vk"])
+                lay = op.get("layout") or ""
+                if "F" in lay:
+                    data = np.asfortranarray(data)
+                if "strided" in lay:
+                    big = np.zeros((2 * data.shape[0], 2 * data.shape[1]), dtype=data.dtype)
+                    big[::2, ::2] = data
+                    data = big[::2, ::2]
+                if "readonly" in lay:
+                    data.setflags(write=False)
+                x.fill_n(data, ws, **({"transformed": True} if op.get("transformed") else {}))
+            elif op.get("columns"):
                 x.fill_n(data.T, ws, columns=True)
             else:
                 x.fill_n(data.tolist() if op.get("container") == "list" and len(data) else data, ws)
